@@ -173,4 +173,117 @@ CATALOGUE = [
             for accessor_name, synt_id in self._LOCAL_SYNTAX.items():
                 setattr(self, accessor_name, colors_conf.get_color(synt_id))
 """, note="a synced palette is refreshed only the first time it meets a configuration"),
+    # ------------------------------------------------------------------ C08
+    dict(id="m08_fixed_len_self", prop="C08", file="ak/color.py",
+         old="        return type(self)(self)  # the result must not share state with self\n",
+         new="        return self\n", note="the original defect (fixed in /repo)"),
+    dict(id="m08_self_append", prop="C08", file="ak/color.py",
+         old="            for part in other.chunks[:]:\n",
+         new="            for part in other.chunks:\n", note="the original defect: x += x never terminates"),
+    dict(id="m08_chunk_pos", prop="C08", file="ak/color.py", suite_catches=True,
+         old="            if position < len(chunk.text):\n                return chunk_id, position\n",
+         new="            if position <= len(chunk.text):\n                return chunk_id, position\n",
+         note="off by one at a chunk boundary"),
+    dict(id="m08_neg_start_no_clamp", prop="C08", suite_catches=True, file="ak/color.py",
+         old="            start_pos = max(0, self.scrlen + start_pos)\n",
+         new="            start_pos = self.scrlen + start_pos\n",
+         note="negative start beyond the beginning is not clamped"),
+    dict(id="m08_neg_stop_no_clamp", prop="C08", suite_catches=True, file="ak/color.py",
+         old="            end_pos = max(0, self.scrlen + end_pos)\n",
+         new="            end_pos = abs(self.scrlen + end_pos)\n",
+         note="negative stop beyond the beginning"),
+    dict(id="m08_scrlen_merge", prop="C08", suite_catches=True, file="ak/color.py",
+         old="            self.chunks[-1] = prev_chunk.clone(prev_chunk.text + chunk.text)\n        else:\n            self.chunks.append(chunk)\n        self.scrlen += len(chunk.text)\n",
+         new="            self.chunks[-1] = prev_chunk.clone(prev_chunk.text + chunk.text)\n        else:\n            self.chunks.append(chunk)\n            self.scrlen += len(chunk.text)\n",
+         note="cached length not updated when the appended chunk is merged into the last one"),
+    dict(id="m08_keep_empty", prop="C08", file="ak/color.py",
+         old="        if not chunk.text:\n            # It is safe to skip chunks with empty text.\n",
+         new="        if not chunk.text and not self.chunks:\n            # It is safe to skip chunks with empty text.\n",
+         note="empty chunks kept unless the text is empty: unmerged neighbours, unequal equal texts"),
+    dict(id="m08_eq_ignores_colour", prop="C08", suite_catches=True, file="ak/color.py",
+         old="            return all(p0 == p1 for p0, p1 in zip(self.chunks, other.chunks))\n",
+         new="            return all(p0.text == p1.text for p0, p1 in zip(self.chunks, other.chunks))\n",
+         note="equality ignores colours"),
+    dict(id="m08_eq_str_colored", prop="C08", suite_catches=True, file="ak/color.py",
+         old="            p = self.chunks[0]\n            return p.is_plain() and p.text == other\n",
+         new="            p = self.chunks[0]\n            return p.text == other\n",
+         note="a coloured text equals the plain string"),
+    dict(id="m08_center", prop="C08", file="ak/color.py",
+         old="            prefix_width = filler_width // 2\n",
+         new="            prefix_width = (filler_width + 1) // 2\n", note="centering with odd padding"),
+    dict(id="m08_fixed_len_shares_chunks", prop="C08", suite_catches=True, file="ak/color.py",
+         old="        if len_diff < 0:\n            return self[:desired_len]\n        if len_diff > 0:\n            return self + \" \"*len_diff\n",
+         new="        if len_diff < 0:\n            return self[:desired_len]\n        if len_diff > 0:\n            self += \" \"*len_diff\n            return type(self)(self)\n",
+         note="fixed_len pads the receiver in place"),
+    dict(id="m08_getitem_first_chunk_alias", prop="C08", file="ak/color.py",
+         old="        remain_len = end_pos - start_pos\n        if remain_len <= 0:\n            return type(self)()\n",
+         new="        remain_len = end_pos - start_pos\n        if remain_len <= 0:\n            return type(self)()\n        if start_pos == 0 and remain_len >= self.scrlen:\n            return self\n",
+         note="full-range slice returns the receiver itself"),
+    # ------------------------------------------------------------------ C10
+    dict(id="m10_enum_id_cache", prop="C10", file="ak/ppobj.py",
+         edits=[("        self._cache = weakref.WeakKeyDictionary()\n", "        self._cache = {}\n"),
+                ("        cache_key = field_palette  # need to maintain separate caches\n",
+                 "        cache_key = id(field_palette)  # need to maintain separate caches\n")],
+         note="the original defect (fixed in /repo): cell cache keyed by id() of a palette"),
+    dict(id="m10_nocolor_returns_cached_colored", prop="C10", suite_catches=True, file="ak/color.py",
+         old="            return cls._PALETTE_NO_COLOR\n",
+         new="            return cls._PALETTE_NO_COLOR or colors_conf.get_cached_obj(cls)\n",
+         note="no_color request served from the coloured palette cache when one exists"),
+    dict(id="m10_shared_sub_palettes", prop="C10", suite_catches=True, file="ak/color.py",
+         old="        self._sub_palettes = {}\n",
+         new="        self._sub_palettes = CompoundPalette.get_sub_palette.__dict__.setdefault('shared', {})\n",
+         note="sub-palettes cached across configurations and across colour / no_color palettes"),
+    dict(id="m10_warn_constant", prop="C10", file="ak/ppobj.py",
+         old="        result.append(cp.warn('.'*dots_len))\n",
+         new="        result.append(CHText.Chunk('\\033[31m', '.'*dots_len, '\\033[0m'))\n",
+         note="truncation dots coloured by a constant: escape in no_color output, ignores configuration"),
+    dict(id="m10_result_memo_on_object", prop="C10", suite_catches=True, file="ak/ppobj.py",
+         old="    def __str__(self):\n        if self._ch_text is None:\n            self._ch_text = self.ppobj.make_ch_text(self.cp)\n        return self._ch_text.__str__()\n",
+         new="    def __str__(self):\n        if self._ch_text is None:\n            memo = self.ppobj.__dict__ if hasattr(self.ppobj, '__dict__') else {}\n            if '_memo_text' not in memo:\n                memo['_memo_text'] = self.ppobj.make_ch_text(self.cp)\n            self._ch_text = memo['_memo_text']\n        return self._ch_text.__str__()\n",
+         note="whole text memoised on the printable object instead of the result: later renderings under another palette reuse it"),
+    dict(id="m10_no_cache_reset_on_pending", prop="C10", suite_catches=True, file="ak/color.py",
+         old="        if any(synt_id not in self.syntax_map for synt_id in new_items):\n            self._cache = {}\n",
+         new="        if any(synt_id not in self.syntax_map for synt_id in new_items) and not any(\n                sc.color_fmt is None for sc in self.syntax_map.values()):\n            self._cache = {}\n",
+         note="palette cache not reset while something is pending: a registered parent does not reach cached palettes"),
+    dict(id="m10_lines_whole_differ", prop="C10", file="ak/ppobj.py",
+         old="        # 7. summary line\n        if self.footer:\n",
+         new="        # 7. summary line\n        if self.footer and table_lines:\n",
+         note="(layout change, same for all paths: must NOT be reported by C10 - control)", expect_miss=True),
+    # ------------------------------------------------------------------ C13
+    dict(id="m13_paren_suffix", prop="C13", file="ak/ppobj.py",
+         old="            if width_fmt.endswith(')') and '(' in width_fmt:\n",
+         new="            if False and width_fmt.endswith(')') and '(' in width_fmt:\n",
+         note="the original defect (fixed in /repo): 'a:3-10(7)' rejected"),
+    dict(id="m13_stale_widths", prop="C13", file="ak/ppobj.py",
+         old="        new_fmt_obj = self._ppt_fmt.clone()\n        new_fmt_obj.remove_columns(columns_names)\n        self._ppt_fmt = new_fmt_obj\n",
+         new="        self._ppt_fmt.remove_columns(columns_names)\n",
+         note="the original defect (fixed in /repo): stale widths after remove_columns"),
+    dict(id="m13_inflight", prop="C13", file="ak/ppobj.py",
+         old="                    repr_structure.make_record_ch_chunks_all(tl, cp),\n",
+         new="                    self._ppt_fmt.repr_structure.make_record_ch_chunks_all(tl, cp),\n",
+         note="the original defect (fixed in /repo): in-flight rendering reads the current format object"),
+    dict(id="m13_breakby_with_modifier", prop="C13", file="ak/ppobj.py",
+         old="        if self.break_by:\n            fmt_str += \"!\"\n",
+         new="        if self.break_by and self.fmt_modifier is None:\n            fmt_str += \"!\"\n",
+         note="serialiser drops ! when the column has a format modifier"),
+    dict(id="m13_limits_dropped_when_skipped", prop="C13", suite_catches=True, file="ak/ppobj.py",
+         old="        if self.any_lines_skipped is None or self.any_lines_skipped is True:\n",
+         new="        if self.any_lines_skipped is None:\n",
+         note="limits left out of the reported string exactly when they matter"),
+    dict(id="m13_set_fmt_no_clone", prop="C13", file="ak/ppobj.py",
+         old="        new_fmt_obj = self._ppt_fmt.clone()\n        parsed_fmt = PPTableFormat._parse_fmt(fmt)\n",
+         new="        new_fmt_obj = self._ppt_fmt\n        parsed_fmt = PPTableFormat._parse_fmt(fmt)\n",
+         note="set_fmt mutates the live format object: a rendering in flight is disturbed by fmt = ''"),
+    dict(id="m13_clone_forgets_breakby", prop="C13", file="ak/ppobj.py",
+         old="            self.fmt_modifier,\n            self.break_by,\n            self.min_width,\n",
+         new="            self.fmt_modifier,\n            False,\n            self.min_width,\n",
+         note="ReprColumn.clone() forgets break_by: fmt = '' removes break lines"),
+    dict(id="m13_clone_forgets_limits", prop="C13", file="ak/ppobj.py",
+         old="            self.repr_structure.clone(), self.limit_flines, self.limit_llines)\n",
+         new="            self.repr_structure.clone())\n",
+         note="PPTableFormat.clone() forgets limits (they are copied back only by set_fmt): fmt_obj= constructor differs"),
+    dict(id="m13_zero_width", prop="C13", file="ak/ppobj.py",
+         old="        if self.min_width == self.max_width:\n            fmt_str += f\":{self.min_width}\"\n",
+         new="        if self.min_width == self.max_width:\n            fmt_str += f\":{self.min_width}\" if self.min_width else \"\"\n",
+         note="a zero-width column is reported without its width"),
 ]
